@@ -2,7 +2,8 @@
    (not from psutil's code):
      - what a call may end with ([allowed]);
      - what "the process is gone" means ([gone]);
-     - what the kernel may answer when no fault is injected ([base_ok]): while the process is alive a
+     - what the kernel may answer when no fault is injected ([base_ok]): while the process (the object's, or
+       the other one in focus) is alive a
        per-process file that is not optional answers or is refused (EACCES/EPERM), it does not report
        ENOENT/ESRCH/EINVAL; global procfs files answer;
      - the classes of optional files for the base kinds of the quantifier. *)
@@ -12,6 +13,12 @@ Local Open Scope list_scope.
 (* V happened at or before the last access performed *)
 Definition gone (w : world) (s : st) : bool :=
   match w_vanish w with Some v => Nat.ltb v (s_idx s) | None => false end.
+
+(* the process in focus (named by the current entry; it may be the object's own) was removed at or before the
+   last access performed *)
+Definition ogone (w : world) (s : st) : bool :=
+  if String.eqb (s_cur s) (w_self w) then gone w s
+  else match w_ovanish w (s_cur s) with Some v => Nat.ltb v (s_idx s) | None => false end.
 
 (* "the call either returns a well-formed value or raises NoSuchProcess (gone), ZombieProcess or
    AccessDenied, carrying the object's pid; never a bare OSError nor a parsing error" *)
@@ -32,8 +39,12 @@ Definition allowed_weak (r : result) : Prop :=
 Definition allowed_tree (r : result) (gone_at_end : bool) : Prop :=
   match r with
   | RExc (XNSP Other) | RExc (XZombie Other) | RExc (XAD Other) => True
+  | RExc (XNSP Any) | RExc (XZombie Any) | RExc (XAD Any) => True
   | _ => allowed r gone_at_end
   end.
+(* wait(timeout): TimeoutExpired for a process that is still there *)
+Definition allowed_wait (r : result) (gone_at_end : bool) : Prop :=
+  match r with RExc XTimeout => gone_at_end = false | _ => allowed r gone_at_end end.
 Definition allowedb (r : result) (gone_at_end : bool) : bool :=
   match r with
   | RVal => true
@@ -47,12 +58,14 @@ Definition ok_other (r : res) : bool := match r with Err EINVAL => false | _ => 
 Definition is_ok (r : res) : bool := match r with Ok _ => true | _ => false end.
 Definition ok_class (o : oclass) (r : res) : bool :=
   match o with Strict => ok_self r | MayVanish => ok_other r | MayVanishOrInval => true end.
+(* [gf]: which pids are gone at the moment of the access (the base answers of listings depend on it) *)
 Definition base_ok (opt : label -> oclass) (w : world) : Prop :=
-  forall g l cur,
+  forall gf l cur,
     match rwho w l cur with
-    | Global => is_ok (w_base w g (l_kind l) Global (l_file l) cur) = true
-    | Self => ok_class (opt l) (w_base w g (l_kind l) Self (l_file l) cur) = true
-    | Other => ok_class (opt l) (w_base w g (l_kind l) Other (l_file l) cur) = true
+    | Global => is_ok (w_base w gf (l_kind l) Global (l_file l) cur) = true
+    | Self => ok_class (opt l) (w_base w gf (l_kind l) Self (l_file l) cur) = true
+    | Other => ok_class (opt l) (w_base w gf (l_kind l) Other (l_file l) cur) = true
+    | Ext => ok_class (opt l) (w_base w gf (l_kind l) Ext (l_file l) cur) = true
     | Any => True
     end.
 
